@@ -4,11 +4,12 @@
 //! handler that reports the history being executed (async-signal-safe: write(2) and _exit only).
 use core::sync::atomic::{AtomicI32, AtomicU64, AtomicUsize, Ordering};
 
-const K: usize = 6;
+/// number of regions in the reserve; a region is used once per cycle
+const K: usize = 1024;
 pub const POISON: u8 = 0xAA;
 
 pub struct Arena {
-    regions: [*mut u8; K],
+    base: *mut u8,
     rlen: usize,
     cur: usize,
     off: usize,
@@ -21,49 +22,48 @@ pub struct Arena {
 fn page_round(n: usize) -> usize { (n + 4095) & !4095 }
 
 impl Arena {
+    /// One reservation of K regions.  Invariant: the regions already used in the current cycle
+    /// (every place the block has been before) are PROT_NONE; the current region and the not yet
+    /// used ones are accessible and hold only poison.  So every relocation costs ONE mprotect
+    /// (this VM needs ~0.2 ms per call).  When the reserve is used up everything is made
+    /// accessible again with one call; the regions still hold the poison written when they were left.
     pub fn new(max_blen: usize, align: usize) -> Arena {
         assert!(align.is_power_of_two() && align <= 4096);
         let rlen = page_round(max_blen + 8 * align + 3 * 64 + 4096);
-        let mut regions = [core::ptr::null_mut(); K];
-        for r in regions.iter_mut() {
-            let p = unsafe { libc::mmap(core::ptr::null_mut(), rlen, libc::PROT_READ | libc::PROT_WRITE, libc::MAP_PRIVATE | libc::MAP_ANONYMOUS, -1, 0) };
-            assert!(p != libc::MAP_FAILED, "mmap failed");
-            unsafe { core::ptr::write_bytes(p as *mut u8, POISON, rlen); libc::mprotect(p, rlen, libc::PROT_NONE); }
-            *r = p as *mut u8;
-        }
-        unsafe { libc::mprotect(regions[0] as *mut _, rlen, libc::PROT_READ | libc::PROT_WRITE); }
-        Arena { regions, rlen, cur: 0, off: 0, blen: max_blen, align, step: 0, nreloc: 0 }
+        let p = unsafe { libc::mmap(core::ptr::null_mut(), rlen * K, libc::PROT_READ | libc::PROT_WRITE, libc::MAP_PRIVATE | libc::MAP_ANONYMOUS | libc::MAP_NORESERVE, -1, 0) };
+        assert!(p != libc::MAP_FAILED, "mmap failed");
+        Arena { base: p as *mut u8, rlen, cur: 0, off: 0, blen: max_blen, align, step: 0, nreloc: 0 }
     }
     pub fn set_blen(&mut self, blen: usize) { assert!(blen + 8 * self.align + 3 * 64 <= self.rlen); self.blen = blen; }
-    pub fn block(&self) -> *mut u8 { unsafe { self.regions[self.cur].add(self.off) } }
-    /// a fresh (poisoned) block for a new history: region 0, offset 0
+    fn region(&self, i: usize) -> *mut u8 { unsafe { self.base.add(i * self.rlen) } }
+    pub fn block(&self) -> *mut u8 { unsafe { self.region(self.cur).add(self.off) } }
+    /// a fresh (poisoned) block for a new history, in the region where the last one ended
     pub fn start(&mut self) -> *mut u8 {
-        unsafe {
-            core::ptr::write_bytes(self.block(), POISON, self.blen);
-            if self.cur != 0 {
-                libc::mprotect(self.regions[self.cur] as *mut _, self.rlen, libc::PROT_NONE);
-                libc::mprotect(self.regions[0] as *mut _, self.rlen, libc::PROT_READ | libc::PROT_WRITE);
-            }
-        }
-        self.cur = 0; self.off = 0; self.step = 0;
-        unsafe { core::ptr::write_bytes(self.block(), POISON, self.blen); }
+        unsafe { core::ptr::write_bytes(self.region(self.cur), POISON, self.rlen); }
+        self.off = 0; self.step = 0;
         self.block()
     }
     /// byte copy to the next region at an offset that differs modulo 64 (for alignment classes
     /// up to 32) and always in absolute address; old block poisoned, old region PROT_NONE
     pub fn relocate(&mut self) -> *mut u8 {
         let old = self.block();
-        let ni = (self.cur + 1) % K;
+        let mut ni = self.cur + 1;
+        if ni == K {
+            let rc = unsafe { libc::mprotect(self.base as *mut _, self.rlen * K, libc::PROT_READ | libc::PROT_WRITE) };
+            assert!(rc == 0, "mprotect(recycle) failed: errno {}", std::io::Error::last_os_error());
+            ni = 0;
+        }
         self.step += 1;
         let period = if self.align <= 32 { 64 / self.align } else { 4 };
-        let noff = self.align * (self.step % period.max(2)) + 64 * ((self.step / 4) % 3) * (if self.align <= 64 { 1 } else { 0 });
-        let noff = noff - noff % self.align;
+        let noff = self.align * (self.step % period.max(2)) + (if self.align <= 64 { 64 * ((self.step / 4) % 3) } else { 0 });
         unsafe {
-            libc::mprotect(self.regions[ni] as *mut _, self.rlen, libc::PROT_READ | libc::PROT_WRITE);
-            let new = self.regions[ni].add(noff);
+            let nr = self.region(ni);
+            core::ptr::write_bytes(nr, POISON, self.rlen);
+            let new = nr.add(noff);
             core::ptr::copy_nonoverlapping(old, new, self.blen);
             core::ptr::write_bytes(old, POISON, self.blen);
-            libc::mprotect(self.regions[self.cur] as *mut _, self.rlen, libc::PROT_NONE);
+            let rc = libc::mprotect(self.region(self.cur) as *mut _, self.rlen, libc::PROT_NONE);
+            assert!(rc == 0, "mprotect(NONE) failed: {}", std::io::Error::last_os_error());
         }
         self.cur = ni; self.off = noff; self.nreloc += 1;
         NRELOC.fetch_add(1, Ordering::Relaxed);
@@ -72,7 +72,7 @@ impl Arena {
 }
 
 impl Drop for Arena {
-    fn drop(&mut self) { for r in self.regions { unsafe { libc::munmap(r as *mut _, self.rlen); } } }
+    fn drop(&mut self) { unsafe { libc::munmap(self.base as *mut _, self.rlen * K); } }
 }
 
 // ---- fault reporting ------------------------------------------------------------------
@@ -119,7 +119,7 @@ pub fn install_fault_handler(report_fd: i32) {
     REPORT_FD.store(report_fd, Ordering::Relaxed);
     unsafe {
         let mut sa: libc::sigaction = core::mem::zeroed();
-        sa.sa_sigaction = on_fault as usize;
+        sa.sa_sigaction = on_fault as *const () as usize;
         sa.sa_flags = libc::SA_SIGINFO | libc::SA_NODEFER;
         libc::sigemptyset(&mut sa.sa_mask);
         libc::sigaction(libc::SIGSEGV, &sa, core::ptr::null_mut());
